@@ -3,6 +3,8 @@ package main
 import (
 	"bytes"
 	"fmt"
+
+	"capnproto.org/go/capnp/v3/internal/schema"
 )
 
 type annotationParams struct {
@@ -114,6 +116,17 @@ type structObjectFieldParams struct {
 	structFieldParams
 	TypeNode *node
 	Default  staticDataRef
+}
+
+// IsVoidList reports whether the field is a List(Void): capnp.NewVoidList
+// allocates nothing and returns no error, unlike the other list constructors.
+func (p structListFieldParams) IsVoidList() bool {
+	t, _ := p.Field.Slot().Type()
+	if t.Which() != schema.Type_Which_list {
+		return false
+	}
+	et, _ := t.List().ElementType()
+	return et.Which() == schema.Type_Which_void
 }
 
 type structListParams struct {
